@@ -563,7 +563,7 @@ DELIMIT_HDR = ('From Coq Require Import ZArith List Bool.\nFrom PF Require Impor
                'Import ListNotations.\nLocal Open Scope Z_scope.\n'
                "Definition chk (own : bool) (ls cs le ce : Z) (l : list (role * npos * npos)) : bool := "
                "forallb (fun '(r, q, q') => npos_eqb ((if own then delimit_pos else group_pos) ls cs le ce r q) q') l.\n"
-               "Definition chk_un (ls cs le e : Z) (l : list (role * npos * npos)) : bool := forallb (fun '(r, q, q') => npos_eqb (ungroup_pos ls cs le e r q) q') l.\n")
+               "Definition chk_un (own : bool) (ls cs le e : Z) (l : list (role * npos * npos)) : bool := forallb (fun '(r, q, q') => npos_eqb ((if own then undelimit_pos else ungroup_pos) ls cs le e r q) q') l.\n")
 
 
 def stage_delimit_corr(ctx: Ctx):
@@ -572,7 +572,9 @@ def stage_delimit_corr(ctx: Ctx):
     import fst
     P = lambda a: (a.lineno, a.col_offset, a.end_lineno, a.end_col_offset)
     terms, meta = [], []
-    for src in PAR_PROGS:
+    extra = ['a, b = c, d\nfor i, j in k, l: pass\ndef f():\n    x = yield a, b\n    return p, q,\n', 'match s:\n    case a, b: pass\n    case a, *b: pass\n    case {1: (c, d)}, e: pass\n',
+             "x = f'{a,b:x} {c,:{w}}'\ny = f'{p,q!r}{r,s=}'\n", 'x[a,\n  b] = y[c, d,\n       e]\nwith m: z = é, ü,\n', 'for a, b in c:\n    d, e = f = g, h\n    del i, j\nassert k, (l, m)\n']
+    for src in PAR_PROGS + extra:
         probe = fst.FST(src, 'exec')
         paths = [probe.child_path(f, True) for f in probe.walk(True) if isinstance(f.a, (ast.expr, ast.pattern)) and not isinstance(f.a, ast.Starred)]
         for path in paths:
@@ -602,10 +604,10 @@ def stage_delimit_corr(ctx: Ctx):
             terms.append(f'chk {"true" if own else "false"} {T[0]} {T[1]} {T[2]} {T[3]} [{rows}]')
             meta.append({'src': src, 'node': path, 'node_src': node.src, 'own_delimiters': own, 'after_src': root.src})
             ctx.tick(('delimit-corr', src, str(path)), 'corr:delimit:' + ('own' if own else 'group'))
-            if not own:   # and back: unpar() of the pair just put (both parentheses deleted - where one would glue two names it becomes a blank instead, which moves nothing)
+            if True:      # and back: unpar() of the pair just put (both delimiters deleted - where one would glue two names it becomes a blank instead, which moves nothing: then the source differs and the case is skipped)
                 T2 = P(node.a)
                 try:
-                    node.unpar()
+                    node.unpar(node=True) if own else node.unpar()
                 except Exception:
                     continue
                 if root.src != src:
@@ -613,12 +615,12 @@ def stage_delimit_corr(ctx: Ctx):
                 back = [P(a) for a in nodes]
                 rows = '; '.join(f'({"RSelf" if a is node.a else "RInner" if id(a) in below else "ROther"}, ({b[0]}, {b[1]}, {b[2]}, {b[3]}), ({c[0]}, {c[1]}, {c[2]}, {c[3]}))'
                                  for a, b, c in zip(nodes, after, back))
-                terms.append(f'chk_un {T2[0]} {T2[1] - 1} {T2[2]} {T2[3]} [{rows}]')
+                terms.append(f'chk_un true {T2[0]} {T2[1]} {T2[2]} {T2[3] - 1} [{rows}]' if own else f'chk_un false {T2[0]} {T2[1] - 1} {T2[2]} {T2[3]} [{rows}]')
                 meta.append({'src': root.src, 'node': path, 'unpar_of': node.src, 'before_src': meta[-1]['after_src']})
-                ctx.tick(('ungroup-corr', src, str(path)), 'corr:delimit:ungroup')
+                ctx.tick(('ungroup-corr', src, str(path)), 'corr:delimit:' + ('undelimit' if own else 'ungroup'))
     try:
         failed = coq_eval_bools('C01_delimit', DELIMIT_HDR, terms, shard=200)
-        ctx.correspondence('models/Delimit.v delimit_pos / group_pos / ungroup_pos (TRANSLATED call flags) == the AST position of every node after par(force=True), and after the unpar() which follows, on every expression and pattern node of the parenthesization programs',
+        ctx.correspondence('models/Delimit.v delimit_pos / group_pos / ungroup_pos / undelimit_pos (TRANSLATED call flags) == the AST position of every node after par(force=True), and after the unpar() which follows, on every expression and pattern node of the parenthesization programs',
                            len(terms), [meta[i] for i in failed])
     except CoqEvalError as e:
         ctx.broken.append({'kind': 'correspondence', 'name': 'delimit', 'detail': str(e)[:2000]})
